@@ -318,6 +318,50 @@ def node_cleanup(F, R):
         ('remove_node', f.calls(r'::remove_node$')),
     ]
     chain(R, f, steps, 'the node entry is removed after its tags were walked, under the cleaner lock')
+    # F14b: a dead node without details is cleaned up with the config it was discovered with, never with the global config
+    gc = f.calls(r'config::Config::global_config$')
+    R.ob('WHO-MAY-CALL', 'WHO-MAY-CALL::%s::no-global-config-fallback' % fnkey(f), not gc, 'the dead-node cleanup never falls back to Config::global_config() (%d call(s)): with a non-default config the cleaner lock would be looked up in the wrong domain and the cleanup removes nothing' % len(gc), gc[0].where if gc else '%s:%s' % (f.file, f.line), f)
+
+
+def node_creation(F, R):
+    """F14: the monitoring token is the marker through which Node::list() discovers a node: it is created before every other resource of the node."""
+    cands = [f for f in F.find_fns(r'^iceoryx2::node::NodeBuilder::__internal_create_with_custom_node_id$')]
+    if len(cands) != 1:
+        R.missing('NodeBuilder::__internal_create_with_custom_node_id (found %d)' % len(cands))
+        return
+    f = cands[0]
+    tok = f.calls(r'NodeBuilder::create_token$')
+    others = f.calls(r'NodeBuilder::create_node_details_storage$') + [c for c in f.calls(RES) if not c.macro]
+    R.floor('node resources created besides the token', len(others), 1)
+    dom(R, f, tok, others, 'create_token<node-resources', 'Node::list() finds nodes only through their monitoring token: what is created before it can never be cleaned up after a crash')
+    dom(R, f, tok, f.ok_exit_sites(), 'create_token<Ok', 'a node that exists is monitorable')
+
+
+def locked_storages(F, R):
+    """F15: a static storage exists in a locked (being created) state that NamedConceptMgmt::list_cfg hides; the dead-node cleanup enumerates tags
+    with list_cfg, so it needs a second enumeration for storages whose creator died before unlock() - otherwise the node directory can never be removed."""
+    lc = [f for f in F.find_fns(r'^<iceoryx2_cal::static_storage::file::Storage as iceoryx2_cal::named_concept::NamedConceptMgmt>::list_cfg$')]
+    if len(lc) != 1:
+        R.missing('static_storage::file::Storage::list_cfg')
+        return
+    lc = lc[0]
+    bodies, _ = kinds_removed(F, lc, depth=3)   # only used for the set of functions followed
+    hides = False
+    for g in [lc] + F.closures_of(lc) + [F.fn_opt(c.callee) for c in lc.calls(r'^iceoryx2_cal::static_storage::file::') if F.fn_opt(c.callee)]:
+        for h in [g] + F.closures_of(g):
+            if lib.const_sites(h, r'INIT_PERMISSIONS'):
+                hides = True
+    rn = F.fn_opt('iceoryx2::node::remove_node')
+    if rn is None:
+        R.missing('iceoryx2::node::remove_node')
+        return
+    other_enum = [c for c in rn.calls(r'static_storage::StaticStorage::list_\w+$|StaticStorage.*::list_locked\w*$')]
+    rmdir = rn.calls(r'node::remove_node_details_directory$')
+    ok = (not hides) or (bool(other_enum) and all(any(rn.dominates(e, d) for e in other_enum) for d in rmdir))
+    R.ob('COVERAGE', 'COVERAGE::%s::locked-storages-are-removed' % fnkey(rn), ok,
+         'list_cfg %s storages in the locked (INIT_PERMISSIONS) state; remove_node() %s before removing the node directory: a tag / details file whose creator died between create_locked() and unlock() is never seen by the tag walk and blocks rmdir for ever' % (
+             'hides' if hides else 'does not hide', 'enumerates them separately (%s)' % ', '.join(core.short(c.callee) for c in other_enum) if other_enum else 'has no other enumeration'),
+         rmdir[0].where if rmdir else '%s:%s' % (rn.file, rn.line), rn)
 
 
 def check(F, R, tier):
@@ -328,6 +372,8 @@ def check(F, R, tier):
     dyncfg(F, R)
     storages(F, R)
     node_cleanup(F, R)
+    node_creation(F, R)
+    locked_storages(F, R)
 
 
 LEVEL_TEXT = ("Decides on all CFG paths the marker-first / registry-last creation order and reverse drop (field) order of all 8 ports, services "
